@@ -70,7 +70,7 @@ def run(tier, v):
     wd = vlib.workdir(PID)
     vlib.build_harness()
     K = set(vlib.known_devs(PID))
-    fams = ["ver", "presence", "perm", "grease", "sizes", "misc", "embed", "alpn", "lookalike"]
+    fams = ["ver", "presence", "perm", "grease", "sizes", "misc", "embed", "alpn", "lookalike", "recver"]
     n = n_nontriv = states = trans = 0
     samples = []
     for fam in fams:
